@@ -393,7 +393,11 @@ func runReplayTest(repo, pkg, src string) (string, error) {
 	testPath := filepath.Join(repo, rel, "zz_govc_replay_test.go")
 	srcPath := filepath.Join(dir, "replay_test.go")
 	os.WriteFile(srcPath, []byte(src), 0644)
-	ov, _ := json.Marshal(map[string]any{"Replace": map[string]string{testPath: srcPath}})
+	repl := map[string]string{testPath: srcPath}
+	for k, v := range overlayFiles {
+		repl[k] = v
+	}
+	ov, _ := json.Marshal(map[string]any{"Replace": repl})
 	ovPath := filepath.Join(dir, "ov.json")
 	os.WriteFile(ovPath, ov, 0644)
 	ctx, cancel := context.WithTimeout(context.Background(), 180*time.Second)
